@@ -675,6 +675,9 @@ func runC01(ctx *Ctx) *Result {
 	if res.Broken == "" {
 		cross := c01UnitScope(ctx, res)
 		if res.Broken == "" {
+			cross = append(cross, c01UnitDefineAll(ctx, res)...)
+		}
+		if res.Broken == "" {
 			cross = append(cross, c01UnitResolve(ctx, res)...)
 		}
 		if res.Broken == "" {
